@@ -524,3 +524,448 @@ Proof.
     + apply in_app_or in Hq. destruct Hq as [Hq|Hq]; [exact Hq|apply (select_fst_incl s cands cap'); exact Hq].
   - apply select_valid.
 Qed.
+
+(* ---------- rows ---------- *)
+Lemma swap3_invol r : swap3 (swap3 r) = r.
+Proof. destruct r as [[a b] s]. reflexivity. Qed.
+
+Lemma row_eqb_eq r r' : row_eqb r r' = true <-> r = r'.
+Proof.
+  destruct r as [p s], r' as [p' s']. unfold row_eqb, rp. cbn [fst snd].
+  rewrite andb_true_iff, pair_eqb_eq, N.eqb_eq. split; [intros [-> ->]; reflexivity|intros E; inversion E; auto].
+Qed.
+
+Lemma row_eqb_swap r t : row_eqb r (swap3 t) = row_eqb (swap3 r) t.
+Proof.
+  apply eq_true_iff_eq. rewrite !row_eqb_eq. split; intros H.
+  - rewrite H. apply swap3_invol.
+  - rewrite <- H. symmetry. apply swap3_invol.
+Qed.
+
+Lemma rcount_cons r x l : rcount r (x :: l) = (if row_eqb r x then 1 else 0) + rcount r l.
+Proof. unfold rcount. cbn [filter]. destruct (row_eqb r x); reflexivity. Qed.
+
+Lemma rcount_pos_in r l : 0 < rcount r l <-> In r l.
+Proof.
+  induction l as [|x l IH]; [cbn; split; [lia|tauto]|]. rewrite rcount_cons. cbn [In].
+  destruct (row_eqb r x) eqn:E.
+  - apply row_eqb_eq in E. subst. split; [now left|lia].
+  - rewrite <- IH. split; [intros H; right; lia|]. intros [->|H]; [|lia].
+    rewrite (proj2 (row_eqb_eq r r) eq_refl) in E. discriminate.
+Qed.
+
+Lemma in_mirror r T : In r (mirror T) <-> In r T \/ In (swap3 r) T.
+Proof.
+  unfold mirror. rewrite in_flat_map. split.
+  - intros [t [Ht [<-|[<-|[]]]]]; [right; rewrite swap3_invol; exact Ht|left; exact Ht].
+  - intros [H|H]; [exists r; split; [exact H|right; now left]|].
+    exists (swap3 r). split; [exact H|left; apply swap3_invol].
+Qed.
+
+Lemma mirror_cons t T : mirror (t :: T) = swap3 t :: t :: mirror T.
+Proof. reflexivity. Qed.
+
+Lemma length_mirror T : length (mirror T) = 2 * length T.
+Proof. induction T as [|t T IH]; [reflexivity|]. rewrite mirror_cons. cbn [length]. lia. Qed.
+
+Lemma rcount_mirror r T : rcount r (mirror T) = rcount r T + rcount (swap3 r) T.
+Proof.
+  induction T as [|t T IH]; [reflexivity|]. rewrite mirror_cons, !rcount_cons, IH, row_eqb_swap. lia.
+Qed.
+
+Lemma rcount_mirror_sym r T : rcount r (mirror T) = rcount (swap3 r) (mirror T).
+Proof. rewrite !rcount_mirror, swap3_invol. lia. Qed.
+
+Lemma even_double n : Nat.even (n + n) = true.
+Proof. replace (n + n) with (2 * n) by lia. apply Nat.even_spec. exists n. reflexivity. Qed.
+
+Lemma rcount_mirror_self r T : fst (rp r) = snd (rp r) -> Nat.even (rcount r (mirror T)) = true.
+Proof.
+  intros H. rewrite rcount_mirror. replace (swap3 r) with r; [apply even_double|].
+  destruct r as [[a b] s]. unfold rp in H. cbn [fst snd] in H. subst. reflexivity.
+Qed.
+
+Lemma upair_eqb_swapp p q : upair_eqb p (swapp q) = upair_eqb p q.
+Proof.
+  apply eq_true_iff_eq. rewrite !upair_eqb_iff. destruct p as [a b], q as [c d]. unfold swapp. cbn [fst snd]. tauto.
+Qed.
+
+Lemma ucount_mirror p T : ucount p (map rp (mirror T)) = 2 * ucount p (map rp T).
+Proof.
+  induction T as [|t T IH]; [reflexivity|]. rewrite mirror_cons. cbn [map]. rewrite !ucount_cons, IH.
+  replace (rp (swap3 t)) with (swapp (rp t)) by (destruct t as [[a b] s]; reflexivity).
+  rewrite upair_eqb_swapp. lia.
+Qed.
+
+Lemma rp_triplets ev : forall scores, length scores = length ev -> map rp (triplets ev scores) = ev.
+Proof.
+  unfold triplets. induction ev as [|[a b] ev IH]; intros [|s scores] H; try discriminate; [reflexivity|].
+  cbn [combine map]. unfold rp at 1. cbn [fst snd]. f_equal. apply IH. cbn [length] in H. lia.
+Qed.
+
+Lemma rp_constant ev : map rp (constant_rows ev) = ev.
+Proof.
+  unfold constant_rows. rewrite map_map. rewrite (map_ext _ (fun p => p)); [apply map_id|].
+  intros [a b]. reflexivity.
+Qed.
+
+Lemma ucount_perm p l l' : Permutation l l' -> ucount p l = ucount p l'.
+Proof.
+  induction 1 as [|x l l' _ IH|x y l|l l' l'' _ IH1 _ IH2]; [reflexivity| | |congruence].
+  - rewrite !ucount_cons, IH. reflexivity.
+  - rewrite !ucount_cons. lia.
+Qed.
+
+Lemma ucount_selected p cands cap' ev : selected_ok cands cap' ev -> ucount p ev <= ucount p cands.
+Proof. intros [_ [rest HR]]. rewrite <- (ucount_perm p _ _ HR), ucount_app. lia. Qed.
+
+(* the clauses one batch's rows must satisfy, relative to the candidate list and the effective cap *)
+Record rows_spec (cols : list str) (h : str) (cands : list pair) (cap' : Z) (rows : list row) : Prop := {
+  rs_closed : forall r, In r rows -> In (fst (rp r)) cols /\ In (snd (rp r)) cols;
+  rs_const : is_const h = true ->
+    length rows = slice_len (length cands) cap'
+    /\ (forall r, In r rows -> snd r = 0%N)
+    /\ (forall p, ucount p (map rp rows) <= ucount p cands);
+  rs_mirror : is_const h = false ->
+    length rows = 2 * slice_len (length cands) cap'
+    /\ (forall r, rcount r rows = rcount (swap3 r) rows)
+    /\ (forall r, fst (rp r) = snd (rp r) -> Nat.even (rcount r rows) = true)
+    /\ (forall p, ucount p (map rp rows) <= 2 * ucount p cands)
+}.
+
+(* one call of mixed_rank_graph: some sub-multiset of the candidates of the slice's length, in some order
+   (random.shuffle), scored by some answers, assembled by the mirror loop / the Constant shortcut *)
+Definition valid_batch (cols : list str) (h tro label : str) (cap : Z) (rows : list row) : Prop :=
+  exists ev scores, selected_ok (candidates cols h tro label) (eff_cap h cap) ev
+                    /\ length scores = length ev /\ rows = build_rows h ev scores.
+
+Lemma in_rp_of_row r rows : In r rows -> In (rp r) (map rp rows).
+Proof. apply in_map. Qed.
+
+Lemma closed_of_pairs cols (cands rps : list pair) :
+  (forall a b, In (a, b) cands -> In a cols /\ In b cols) -> incl rps cands ->
+  forall p, In p rps -> In (fst p) cols /\ In (snd p) cols.
+Proof. intros Hc Hi [a b] Hp. apply Hc, Hi, Hp. Qed.
+
+Theorem build_rows_spec cols h cands cap' ev scores :
+  (forall a b, In (a, b) cands -> In a cols /\ In b cols) ->
+  selected_ok cands cap' ev -> length scores = length ev ->
+  rows_spec cols h cands cap' (build_rows h ev scores).
+Proof.
+  intros Hc Hs Hl. pose proof (selected_ok_incl _ _ _ Hs) as Hincl. unfold build_rows. constructor.
+  - intros r Hr. destruct (is_const h).
+    + apply (closed_of_pairs cols cands ev Hc Hincl). rewrite <- (rp_constant ev). apply in_map. exact Hr.
+    + apply in_mirror in Hr. destruct Hr as [Hr|Hr].
+      * apply (closed_of_pairs cols cands ev Hc Hincl). rewrite <- (rp_triplets ev scores Hl). apply in_map. exact Hr.
+      * assert (H : In (rp (swap3 r)) ev) by (rewrite <- (rp_triplets ev scores Hl); apply in_map; exact Hr).
+        apply (closed_of_pairs cols cands ev Hc Hincl) in H. destruct r as [[a b] s]. unfold rp, swap3 in *. cbn [fst snd] in *. tauto.
+  - intros Hk. rewrite Hk. split; [|split].
+    + unfold constant_rows. rewrite map_length. apply Hs.
+    + intros r Hr. unfold constant_rows in Hr. apply in_map_iff in Hr. destruct Hr as [p [<- _]]. reflexivity.
+    + intros p. rewrite rp_constant. eapply ucount_selected. exact Hs.
+  - intros Hk. rewrite Hk. split; [|split; [|split]].
+    + rewrite length_mirror. unfold triplets. rewrite map_length, combine_length, Hl, Nat.min_id. destruct Hs as [-> _]. reflexivity.
+    + intros r. apply rcount_mirror_sym.
+    + intros r. apply rcount_mirror_self.
+    + intros p. rewrite ucount_mirror, (rp_triplets ev scores Hl). pose proof (ucount_selected p _ _ _ Hs). lia.
+Qed.
+
+Theorem batch_rows_spec cols h tro label cap rows : In label cols ->
+  valid_batch cols h tro label cap rows ->
+  rows_spec cols h (candidates cols h tro label) (eff_cap h cap) rows.
+Proof.
+  intros Hl [ev [scores [Hs [Hlen ->]]]]. apply build_rows_spec; [apply cands_closed; exact Hl|exact Hs|exact Hlen].
+Qed.
+
+(* consequences in the words of the property *)
+Lemma rows_spec_requested cols h cands cap' rows : rows_spec cols h cands cap' rows ->
+  forall r, In r rows -> uin (rp r) cands.
+Proof.
+  intros S r Hr. apply ucount_pos.
+  assert (0 < ucount (rp r) (map rp rows)).
+  { apply in_map with (f := rp) in Hr. apply in_split in Hr. destruct Hr as [u [v ->]].
+    rewrite ucount_app, ucount_cons. replace (upair_eqb (rp r) (rp r)) with true; [lia|].
+    symmetry. apply upair_eqb_iff. now left. }
+  destruct (is_const h) eqn:Hk.
+  - destruct (rs_const _ _ _ _ _ S Hk) as [_ [_ Hu]]. specialize (Hu (rp r)). lia.
+  - destruct (rs_mirror _ _ _ _ _ S Hk) as [_ [_ [_ Hu]]]. specialize (Hu (rp r)). lia.
+Qed.
+
+Lemma rows_spec_mirrored cols h cands cap' rows : rows_spec cols h cands cap' rows -> is_const h = false ->
+  forall a b s, In (a, b, s) rows -> In (b, a, s) rows.
+Proof.
+  intros S Hk a b s Hr. destruct (rs_mirror _ _ _ _ _ S Hk) as [_ [Hm _]].
+  apply rcount_pos_in. apply rcount_pos_in in Hr. specialize (Hm (a, b, s)). unfold swap3 in Hm. cbn [fst snd] in Hm. lia.
+Qed.
+
+(* ---------- the checker decides exactly these clauses ---------- *)
+Lemma rcount_zero r rows : ~ In r rows -> rcount r rows = 0.
+Proof. intros H. destruct (rcount r rows) eqn:E; [reflexivity|]. exfalso. apply H, rcount_pos_in. lia. Qed.
+
+Lemma upair_eqb_congr p q x : upair_eqb p q = true -> upair_eqb p x = upair_eqb q x.
+Proof.
+  intros E. apply upair_eqb_iff in E. apply eq_true_iff_eq. rewrite !upair_eqb_iff.
+  destruct p as [a b], q as [c d], x as [e f]. unfold swapp in *. cbn [fst snd] in *.
+  destruct E as [E|E]; inversion E; subst; split; (intros [H|H]; inversion H; subst; tauto).
+Qed.
+
+Lemma ucount_congr p q l : upair_eqb p q = true -> ucount p l = ucount q l.
+Proof.
+  intros E. induction l as [|x l IH]; [reflexivity|]. rewrite !ucount_cons, IH, (upair_eqb_congr p q x E). reflexivity.
+Qed.
+
+Lemma ucount_all (rps cands : list pair) k :
+  (forall p, In p rps -> ucount p rps <= k * ucount p cands) -> forall p, ucount p rps <= k * ucount p cands.
+Proof.
+  intros H p. destruct (umemb p rps) eqn:E.
+  - unfold umemb in E. apply existsb_exists in E. destruct E as [q [Hq E]].
+    rewrite (ucount_congr p q rps E), (ucount_congr p q cands E). apply H. exact Hq.
+  - rewrite ucount_zero; [lia|]. intros U. apply umemb_uin in U. congruence.
+Qed.
+
+Theorem rows_okb_iff cols h cands cap' rows :
+  rows_okb cols h cands cap' rows = true <-> rows_spec cols h cands cap' rows.
+Proof.
+  unfold rows_okb, closedb. split.
+  - intros H. apply andb_true_iff in H. destruct H as [Hc H]. rewrite forallb_forall in Hc. constructor.
+    + intros r Hr. specialize (Hc r Hr). apply andb_true_iff in Hc. rewrite !memb_In in Hc. exact Hc.
+    + intros Hk. rewrite Hk in H. rewrite !andb_true_iff in H. destruct H as [[H1 H2] H3].
+      rewrite forallb_forall in H2, H3. split; [apply Nat.eqb_eq; exact H1|]. split.
+      * intros r Hr. apply N.eqb_eq. apply H2. exact Hr.
+      * intros p. rewrite <- (Nat.mul_1_l (ucount p cands)). apply ucount_all. intros q Hq.
+        apply in_map_iff in Hq. destruct Hq as [r [<- Hr]]. specialize (H3 r Hr). apply Nat.leb_le in H3. lia.
+    + intros Hk. rewrite Hk in H. rewrite !andb_true_iff in H. destruct H as [[[H1 H2] H3] H4].
+      rewrite forallb_forall in H2, H3, H4. split; [apply Nat.eqb_eq; exact H1|].
+      assert (Hsym : forall r, In r rows -> rcount r rows = rcount (swap3 r) rows)
+        by (intros r Hr; apply Nat.eqb_eq, H2, Hr).
+      split; [|split].
+      * intros r. destruct (rcount r rows) eqn:E1.
+        -- destruct (rcount (swap3 r) rows) eqn:E2; [reflexivity|].
+           assert (Hin : In (swap3 r) rows) by (apply rcount_pos_in; lia).
+           specialize (Hsym _ Hin). rewrite swap3_invol in Hsym. lia.
+        -- rewrite <- E1. apply Hsym. apply rcount_pos_in. lia.
+      * intros r Hr. destruct (rcount r rows) eqn:E; [reflexivity|]. rewrite <- E.
+        assert (Hin : In r rows) by (apply rcount_pos_in; lia). specialize (H3 r Hin).
+        apply orb_true_iff in H3. destruct H3 as [H3|H3]; [|exact H3].
+        apply negb_true_iff, str_eqb_neq in H3. contradiction.
+      * intros p. apply ucount_all. intros q Hq.
+        apply in_map_iff in Hq. destruct Hq as [r [<- Hr]]. specialize (H4 r Hr). apply Nat.leb_le in H4. exact H4.
+  - intros [Hc Hk Hm]. apply andb_true_iff. split.
+    + apply forallb_forall. intros r Hr. apply andb_true_iff. rewrite !memb_In. apply Hc. exact Hr.
+    + destruct (is_const h).
+      * destruct (Hk eq_refl) as [H1 [H2 H3]]. rewrite !andb_true_iff. split; [split|].
+        -- apply Nat.eqb_eq. exact H1.
+        -- apply forallb_forall. intros r Hr. apply N.eqb_eq. apply H2. exact Hr.
+        -- apply forallb_forall. intros r _. apply Nat.leb_le. apply H3.
+      * destruct (Hm eq_refl) as [H1 [H2 [H3 H4]]]. rewrite !andb_true_iff. split; [split; [split|]|].
+        -- apply Nat.eqb_eq. exact H1.
+        -- apply forallb_forall. intros r _. apply Nat.eqb_eq. apply H2.
+        -- apply forallb_forall. intros r _. destruct (str_eqb (fst (rp r)) (snd (rp r))) eqn:E; [|reflexivity].
+           cbn [negb orb]. apply H3. apply str_eqb_eq. exact E.
+        -- apply forallb_forall. intros r _. apply Nat.leb_le. apply H4.
+Qed.
+
+Lemma in_all_pairs cols a b : In (a, b) (all_pairs cols) <-> In a cols /\ In b cols.
+Proof.
+  unfold all_pairs. rewrite in_flat_map. split.
+  - intros [x [Hx H]]. apply in_map_iff in H. destruct H as [y [E Hy]]. inversion E; subst. tauto.
+  - intros [Ha Hb]. exists a. split; [exact Ha|]. apply in_map_iff. exists b. tauto.
+Qed.
+
+Lemma uin_swapp p l : uin (swapp p) l <-> uin p l.
+Proof. unfold uin. destruct p as [a b]. unfold swapp. cbn [fst snd]. tauto. Qed.
+
+Theorem cands_okb_iff cols h tro label cands : In label cols ->
+  (cands_okb cols h tro label cands = true <-> forall p, uin p cands <-> uin p (candidates cols h tro label)).
+Proof.
+  intros Hl. unfold cands_okb. rewrite andb_true_iff, !forallb_forall. split.
+  - intros [H1 H2] p. split.
+    + intros [U|U]; apply H1, spec_pairb_iff in U; [exact U|apply uin_swapp; exact U].
+    + intros U. apply umemb_uin.
+      assert (Hin : In p (all_pairs cols)).
+      { destruct p as [a b]. apply in_all_pairs. destruct U as [U|U]; apply (cands_closed cols h tro label Hl) in U;
+          unfold swapp in U; cbn [fst snd] in U; tauto. }
+      specialize (H2 p Hin). apply spec_pairb_iff in U. rewrite U in H2. exact H2.
+  - intros H. split.
+    + intros p Hp. apply spec_pairb_iff, H. left. exact Hp.
+    + intros p _. destruct (spec_pairb cols h tro label p) eqn:E; [|reflexivity]. cbn [negb orb].
+      apply umemb_uin, H, spec_pairb_iff, E.
+Qed.
+
+Lemma select_run_ok cands cap' nb : forall s, Forall (selected_ok cands cap') (select_run s cands cap' nb).
+Proof. induction nb as [|k IH]; intros s; [constructor|]. cbn [select_run]. constructor; [apply select_ok|apply IH]. Qed.
+
+Lemma select_run_length cands cap' nb : forall s, length (select_run s cands cap' nb) = nb.
+Proof. induction nb as [|k IH]; intros s; [reflexivity|]. cbn [select_run length]. rewrite IH. reflexivity. Qed.
+
+(* what an accepted observation satisfies *)
+Theorem check_sound c o : In (c_label c) (c_cols c) -> C06_check c o = true ->
+  (forall p, uin p (o_cands o) <-> uin p (C06_cands c))
+  /\ o_cap o = eff_cap (c_heur c) (c_cap c)
+  /\ Forall (rows_spec (c_cols c) (c_heur c) (o_cands o) (o_cap o)) (o_rows o).
+Proof.
+  intros Hl H. unfold C06_check in H. rewrite !andb_true_iff in H. destruct H as [[H1 H2] H3].
+  split; [apply (cands_okb_iff _ _ _ _ _ Hl); exact H1|]. split; [apply Z.eqb_eq; exact H2|].
+  apply Forall_forall. intros rows Hr. rewrite forallb_forall in H3. apply rows_okb_iff, H3, Hr.
+Qed.
+
+(* the transcription is accepted by the checker, whatever the scorer answers *)
+Theorem model_ok c scores : In (c_label c) (c_cols c) ->
+  (forall e s, In (e, s) (combine (select_run [] (C06_cands c) (eff_cap (c_heur c) (c_cap c)) (c_batches c)) scores) ->
+               length s = length e) ->
+  C06_check c (C06_model c scores) = true.
+Proof.
+  intros Hl Hs. unfold C06_check, C06_model. cbn [o_cands o_cap o_rows]. rewrite !andb_true_iff. split; [split|].
+  - apply (cands_okb_iff _ _ _ _ _ Hl). intros p. reflexivity.
+  - apply Z.eqb_refl.
+  - apply forallb_forall. intros rows Hr. apply in_map_iff in Hr. destruct Hr as [[e s] [<- Hes]].
+    apply rows_okb_iff. cbn [fst snd]. apply build_rows_spec.
+    + apply cands_closed. exact Hl.
+    + pose proof (select_run_ok (C06_cands c) (eff_cap (c_heur c) (c_cap c)) (c_batches c) []) as F.
+      rewrite Forall_forall in F. apply F. apply in_combine_l in Hes. exact Hes.
+    + apply Hs. exact Hes.
+Qed.
+
+(* ---------- Constant: each selected combination listed once, score 0, never mirrored ---------- *)
+Theorem constant_once cols h tro label cap rows : is_const h = true ->
+  valid_batch cols h tro label cap rows ->
+  selected_ok (candidates cols h tro label) (eff_cap h cap) (map rp rows)
+  /\ (forall r, In r rows -> snd r = 0%N)
+  /\ length rows = slice_len (length (candidates cols h tro label)) (eff_cap h cap)
+  /\ (NoDup cols -> is_tonly tro = true -> forall p, ucount p (map rp rows) <= 1).
+Proof.
+  intros Hk [ev [scores [Hs [Hlen ->]]]]. unfold build_rows. rewrite Hk. rewrite rp_constant.
+  split; [exact Hs|]. split; [|split].
+  - intros r Hr. unfold constant_rows in Hr. apply in_map_iff in Hr. destruct Hr as [p [<- _]]. reflexivity.
+  - unfold constant_rows. rewrite map_length. apply Hs.
+  - intros Hnd Ht p. pose proof (ucount_selected p _ _ _ Hs) as H1.
+    destruct (cands_once cols h tro label Hnd Ht) as [N1 N2]. pose proof (ucount_le_1 p _ N1 N2). lia.
+Qed.
+
+(* ---------- pairwise mode, list level: non-label self-pairs are listed (hence evaluated) twice ---------- *)
+Lemma uin_ucount_pos p l : uin p l -> 0 < ucount p l.
+Proof.
+  intros [H|H]; apply in_split in H; destruct H as [u [v ->]]; rewrite ucount_app, ucount_cons.
+  - replace (upair_eqb p p) with true; [lia|]. symmetry. apply upair_eqb_iff. now left.
+  - replace (upair_eqb p (swapp p)) with true; [lia|]. symmetry. apply upair_eqb_iff. right.
+    destruct p; reflexivity.
+Qed.
+
+Lemma diagonal_nodup cols label : NoDup cols -> NoDup (diagonal cols label).
+Proof.
+  intros H. unfold diagonal. apply FinFun.Injective_map_NoDup; [intros u v E; inversion E; reflexivity|].
+  apply NoDup_filter. exact H.
+Qed.
+
+Theorem pairwise_multiplicity cols h tro label a b :
+  NoDup cols -> is_3mr h = false -> is_tonly tro = false -> In a cols -> In b cols ->
+  ucount (a, b) (candidates cols h tro label) = if str_eqb a b && negb (str_eqb a label) then 2 else 1.
+Proof.
+  intros Hnd H3 Ht Ha Hb. unfold candidates. rewrite H3, Ht, ucount_app.
+  assert (E1 : ucount (a, b) (cwr2 cols) = 1).
+  { assert (ucount (a, b) (cwr2 cols) <= 1)
+      by (apply ucount_le_1; [apply cwr2_nodup; exact Hnd|intros x y; apply cwr2_orient; exact Hnd]).
+    assert (0 < ucount (a, b) (cwr2 cols)) by (apply uin_ucount_pos, uin_cwr2; tauto). lia. }
+  assert (E2 : ucount (a, b) (diagonal cols label) <= 1).
+  { apply ucount_le_1; [apply diagonal_nodup; exact Hnd|]. intros x y H _. apply in_diagonal in H. tauto. }
+  rewrite E1. destruct (str_eqb a b && negb (str_eqb a label)) eqn:E.
+  - apply andb_true_iff in E. destruct E as [Eab En]. apply str_eqb_eq in Eab. apply negb_true_iff, str_eqb_neq in En.
+    assert (0 < ucount (a, b) (diagonal cols label)) by (apply uin_ucount_pos, uin_diagonal; tauto). lia.
+  - rewrite ucount_zero; [reflexivity|]. rewrite uin_diagonal. intros [Eab [_ En]].
+    apply str_eqb_eq in Eab. apply str_eqb_neq in En. rewrite Eab, En in E. discriminate.
+Qed.
+
+(* ---------- the clamp ---------- *)
+Lemma eff_cap_3mr h cap : is_3mr h = true -> eff_cap h cap = Z.min cap max_features_3mr.
+Proof. intros H. unfold eff_cap. rewrite H. destruct (Z.ltb_spec max_features_3mr cap); lia. Qed.
+
+Lemma eff_cap_other h cap : is_3mr h = false -> eff_cap h cap = cap.
+Proof. intros H. unfold eff_cap. rewrite H. reflexivity. Qed.
+
+(* sorted(set(all_columns) - set(rel_columns)) is determined by the set, whatever the set's iteration order *)
+Theorem non_rel_canonical cols l' :
+  StronglySorted str_le l' -> Permutation l' (dedup (filter (fun c => negb (is_rel c)) cols)) ->
+  l' = non_rel_columns cols.
+Proof.
+  intros Hs HP. symmetry. apply sorted_perm_unique.
+  - apply sort_str_sorted.
+  - exact Hs.
+  - apply non_rel_nodup.
+  - unfold non_rel_columns. rewrite sort_str_perm. symmetry. exact HP.
+Qed.
+
+(* ---------- the batch-level statements in the words of the property ---------- *)
+Theorem batch_mirrored cols h tro label cap rows : is_const h = false ->
+  valid_batch cols h tro label cap rows ->
+  exists T, selected_ok (candidates cols h tro label) (eff_cap h cap) (map rp T)
+    /\ (forall r, In r rows <-> In r T \/ In (swap3 r) T)
+    /\ (forall a b s, In (a, b, s) T -> In (a, b, s) rows /\ In (b, a, s) rows)
+    /\ (forall r, rcount r rows = rcount r T + rcount (swap3 r) T)
+    /\ (forall r, rcount r rows = rcount (swap3 r) rows)
+    /\ length rows = 2 * slice_len (length (candidates cols h tro label)) (eff_cap h cap).
+Proof.
+  intros Hk [ev [scores [Hs [Hlen ->]]]]. unfold build_rows. rewrite Hk. exists (triplets ev scores).
+  rewrite (rp_triplets ev scores Hlen). split; [exact Hs|]. split; [intros r; apply in_mirror|]. split; [|split; [|split]].
+  - intros a b s H. split; apply in_mirror; [left; exact H|right; exact H].
+  - intros r. apply rcount_mirror.
+  - intros r. apply rcount_mirror_sym.
+  - rewrite length_mirror. unfold triplets. rewrite map_length, combine_length, Hlen, Nat.min_id.
+    destruct Hs as [-> _]. reflexivity.
+Qed.
+
+Theorem batch_closed cols h tro label cap rows : In label cols ->
+  valid_batch cols h tro label cap rows ->
+  forall a b s, In (a, b, s) rows -> In a cols /\ In b cols.
+Proof.
+  intros Hl V a b s Hr. pose proof (batch_rows_spec _ _ _ _ _ _ Hl V) as S.
+  apply (rs_closed _ _ _ _ _ S (a, b, s) Hr).
+Qed.
+
+Theorem batch_requested cols h tro label cap rows : In label cols ->
+  valid_batch cols h tro label cap rows ->
+  forall a b s, In (a, b, s) rows -> spec_pairb cols h tro label (a, b) = true.
+Proof.
+  intros Hl V a b s Hr. pose proof (batch_rows_spec _ _ _ _ _ _ Hl V) as S.
+  apply spec_pairb_iff. apply (rows_spec_requested _ _ _ _ _ S (a, b, s) Hr).
+Qed.
+
+(* ---------- non-vacuity ---------- *)
+Definition ex_cols : list str :=
+  [[98]; [108; 97; 98]; [97]; [97; 32; 65; 78; 68; 95; 82; 69; 76; 32; 98]; [97; 98]]%N.   (* b, lab, a, 'a AND_REL b', ab *)
+Definition ex_label : str := [108; 97; 98]%N.
+Definition ex_3mr : str := [77; 73; 45; 110; 117; 109; 98; 97; 45; 51; 109; 114]%N.        (* MI-numba-3mr *)
+Definition ex_mi : str := [77; 73]%N.
+Definition ex_false : str := [70; 97; 108; 115; 101]%N.
+
+Example ex_modes :
+  NoDup ex_cols /\ In ex_label ex_cols
+  /\ is_3mr ex_3mr = true /\ is_3mr ex_mi = false /\ is_tonly s_True = true /\ is_tonly ex_false = false
+  /\ length (candidates ex_cols ex_mi s_True ex_label) = 5
+  /\ length (candidates ex_cols ex_mi ex_false ex_label) = 19
+  /\ candidates ex_cols ex_3mr s_True ex_label
+     = cwr2 [[97]; [97; 98]; [98]; [108; 97; 98]]%N ++ [([97; 32; 65; 78; 68; 95; 82; 69; 76; 32; 98]%N, ex_label)]
+  /\ length (candidates ex_cols ex_3mr ex_false ex_label) = 15
+  /\ eff_cap ex_3mr 20000 = 10000%Z /\ eff_cap ex_mi 20000 = 20000%Z.
+Proof.
+  split; [|vm_compute; intuition].
+  repeat constructor; cbn; intuition discriminate.
+Qed.
+
+Example ex_batch :
+  let c := mkCase ex_cols ex_mi ex_false ex_label 4 2 in
+  let o := C06_model c [[5; 6; 7; 8]; [1; 2; 3; 4]]%N in
+  C06_check c o = true
+  /\ map (@length row) (o_rows o) = [8; 8]
+  /\ select_run [] (C06_cands c) 4 2 = [firstn 4 (C06_cands c); firstn 4 (skipn 4 (C06_cands c))]
+  /\ C06_check (mkCase ex_cols s_Constant s_True ex_label 3 1) (C06_model (mkCase ex_cols s_Constant s_True ex_label 3 1) [[]]) = true.
+Proof. vm_compute. intuition. Qed.
+
+(* dropping the mirror row, mirroring with another score, or listing a foreign pair is rejected *)
+Example ex_rejects :
+  let c := mkCase ex_cols ex_mi s_True ex_label 2 1 in
+  let cands := C06_cands c in
+  C06_check c (mkObs cands 2 [[([98], ex_label, 5); (ex_label, [98], 5); (ex_label, ex_label, 6); (ex_label, ex_label, 6)]])%N = true
+  /\ C06_check c (mkObs cands 2 [[([98], ex_label, 5); (ex_label, ex_label, 6)]])%N = false
+  /\ C06_check c (mkObs cands 2 [[([98], ex_label, 5); (ex_label, [98], 7); (ex_label, ex_label, 6); (ex_label, ex_label, 6)]])%N = false
+  /\ C06_check c (mkObs cands 2 [[([98], [97], 5); ([97], [98], 5); (ex_label, ex_label, 6); (ex_label, ex_label, 6)]])%N = false.
+Proof. vm_compute. intuition. Qed.
